@@ -413,8 +413,10 @@ def lossless_restore_rule(chk, src):
             for p_ in ast.walk(fi.node):
                 for c_ in ast.iter_child_nodes(p_):
                     parents[c_] = p_
+            archives = {t.id for st in ast.walk(fi.node) if isinstance(st, ast.Assign) and isinstance(st.value, ast.Call) and unparse(st.value.func).endswith("np.load")
+                        for t in st.targets if isinstance(t, ast.Name)}
             for sub in ast.walk(fi.node):
-                if not (isinstance(sub, ast.Subscript) and isinstance(sub.value, ast.Name) and sub.value.id == "npload"):
+                if not (isinstance(sub, ast.Subscript) and isinstance(sub.value, ast.Name) and sub.value.id in archives):
                     continue
                 k = sub.slice
                 if isinstance(k, ast.Constant):
